@@ -1,7 +1,7 @@
 (* A uniform total order that the term comparison equals on the terms where comparison is lawful.
    key: numbers and sequences; kcmp: numbers by value, a number before a sequence, sequences lexicographically with a
    proper prefix first.  kcmp is a total order for every key (transitivity by one induction); on the class `tcl`
-   (no floats, no improper lists, integers as the library holds them) cmp_owned a b = kcmp (key a) (key b), hence
+   (no floats, no improper lists, integers in minimal digits) cmp_owned a b = kcmp (key a) (key b), hence
    cmp_owned is transitive there. *)
 From EDP Require Import Base.Bytes Base.F64 Term.Term Term.Value Gen.Ranks Order.Cmp Order.CmpFacts Order.CmpLaws Order.NumLaws.
 
@@ -130,7 +130,7 @@ Definition keys := fix go (l : list term) : list key := match l with [] => [] | 
 Definition keysk := fix gk (m : list (term * term)) : list key := match m with [] => [] | kv :: r => tkey (fst kv) :: gk r end.
 Definition keysv := fix gv (m : list (term * term)) : list key := match m with [] => [] | kv :: r => tkey (snd kv) :: gv r end.
 
-(* the class on which comparison is lawful: no floats, no improper lists, integers as the library holds them *)
+(* the class on which comparison is lawful: no floats, no improper lists, integers in minimal digits *)
 Fixpoint tcl (t : term) : Prop :=
   let all := fix go (l : list term) : Prop := match l with [] => True | x :: r => tcl x /\ go r end in
   match t with
